@@ -310,6 +310,22 @@ def r03_7(ctx):
                         src = it
                 ok = isinstance(src, ast.Call) and isinstance(src.func, ast.Attribute) and src.func.attr == "get_path" and loop is not None and not any(isinstance(x, (ast.If, ast.Continue, ast.Break)) for x in ast.walk(loop))
                 ctx.check(ok, "R03.7", f.where(st), "the per-contig segment table is filled, unfiltered, from GFA.get_path (SO order), not from the file-order registry", key_of(f, f"table-source:{norm(src) if src is not None else None}"), source=norm(src) if src is not None else None)
+    # comprehension spelling: table[contig] = [G[node] for node in SRC]
+    for f in repo.all_funcs():
+        if f.module.name not in ("gaftools.cli.index", "gaftools.cli.view"):
+            continue
+        for st in walk_own(f.node):
+            if isinstance(st, ast.Assign) and isinstance(st.targets[0], ast.Subscript) and isinstance(st.value, ast.ListComp) and len(st.value.generators) == 1 and isinstance(st.value.elt, ast.Subscript) and norm(st.value.elt.slice) == norm(st.value.generators[0].target):
+                outer = [l for l in walk_own(f.node) if isinstance(l, ast.For) and any(x is st for x in ast.walk(l)) and norm(l.target) == norm(st.targets[0].slice)]
+                if not outer:
+                    continue
+                n += 1
+                src = st.value.generators[0].iter
+                if isinstance(src, ast.Name):
+                    d = [a for a in walk_own(f.node) if isinstance(a, ast.Assign) and norm(a.targets[0]) == src.id and a.lineno < st.lineno]
+                    src = d[-1].value if d else src
+                ok = isinstance(src, ast.Call) and isinstance(src.func, ast.Attribute) and src.func.attr == "get_path" and not st.value.generators[0].ifs
+                ctx.check(ok, "R03.7", f.where(st), "the per-contig segment table is filled, unfiltered, from GFA.get_path (SO order), not from the file-order registry", key_of(f, f"table-source:{norm(src)}"), source=norm(src))
     ctx.require_count("R03.7", n, 2, "gaftools/cli", "builders of per-contig segment tables")
 
 
